@@ -23,7 +23,7 @@ SPEC = dict(
     assumptions=["libstdc++ std::string is the reference semantics", "g++ 12 ASan/UBSan runtimes",
                  "states are prepared through assign()/clear() of the class itself (verified after preparation)"],
     modes=[
-        dict(name="c11exh", flavour="asan", cases=35778, exhaustive=True, eval_stat="calls",
+        dict(name="c11exh", flavour="asan", cases=36134, exhaustive=True, eval_stat="calls",
              args={"srclevel": {"quick": 1, "thorough": 2}}, env=c10._ENV, timeout=3600,
              require_stats=["judged_mutations", "judged_observations", "truncations", "op.replace_pos_count_str.cstr"]),
         dict(name="c11eq", flavour="asan", cases=171, exhaustive=True, eval_stat="calls", env=c10._ENV,
